@@ -250,9 +250,17 @@ CLAIMED = {
               "top of the binary32 BM25 model) equals the declarative DisMax + minimum-should-match spec, for every "
               "number of fields, terms and rows (generic form with explicit premises that the per-field score calls and the "
               "row selection succeed; C09_indexed_query_field_score: both PROVED for frames of freshly indexed columns, no "
-              "premise left); q_op=AND is mm=100% (C09_and_is_100pct, n <= 50). The check compares "
+              "premise left); q_op=AND is mm=100% (C09_and_is_100pct, n <= 50). ANY PER-FIELD SIMILARITY (C09_any_similarity, "
+              "Solr/Edismax_AnySim.v): with the per-field per-term score vectors as an abstract input - any similarity - the "
+              "model of the query-field combination equals the DisMax + mm spec for any number of fields, 0..50 terms per field "
+              "(zero-term fields included), any tie, any boosts on the term-centric path; the field-centric path needs "
+              "non-negative scores and boosts (the code's np.max has no zero seed); C09_any_similarity_any_mm is the same "
+              "with an abstract mm function (closed); C09_bm25_is_instance: the BM25 model is an instance. The check compares "
               "the real edismax with model and spec (1e-6 relative, exact zero pattern) incl. unknown terms, mm "
-              "variants, boosts, ties and field-centric queries."),
+              "variants, boosts, ties and field-centric queries; a second phase runs the real edismax with classic, "
+              "parametrised / legacy BM25, the default and user-defined similarities (one for all fields or a dict per "
+              "field), hands the REAL per-term score vectors to the extracted any-similarity model and spec, and compares "
+              "three-way (this fails on the tree before the classic-similarity repair D31)."),
         design_ref="DESIGN.md 7 (C09)",
         note=COMMON_NOTE + "numpy's float64 combination arithmetic is modelled over Q (compared within 1e-6). wf_query carries side "
              "conditions that are hypotheses, not proved facts: every field has n rows, the idf table is non-negative "
